@@ -780,6 +780,41 @@ func c3Structured() []c3Fault {
 		addCert(s, &world.CertSpec{Role: "signer2", CN: "Intel SGX TCB Signing", Key: 7, SignKey: 6, IssuerOf: "root2"})
 		r.SignKey, r.HdrRoles = 7, []string{"signer2", "root2"}
 	})
+	// the same foreign hierarchy, its certificates not yet valid at the verification instants (far from expired): a path that
+	// cannot be validated for ANY reason is a path that was not validated
+	for _, which := range []string{"signer", "root", "both"} {
+		which := which
+		add("pki:look-alike-signer-and-root/not-yet-valid:"+which, -1, func(rng *rand.Rand, s *world.Spec, q bool) {
+			r, _ := respOf(s, q)
+			addCert(s, &world.CertSpec{Role: "root2", CN: "Intel SGX Root CA", IsCA: true, Key: 6, SignKey: 6, CRLDPs: s.Cert("root").CRLDPs})
+			addCert(s, &world.CertSpec{Role: "signer2", CN: "Intel SGX TCB Signing", Key: 7, SignKey: 6, IssuerOf: "root2"})
+			later := s.Now[0]
+			for _, t := range s.Now {
+				if t.After(later) {
+					later = t
+				}
+			}
+			later = later.Add(time.Duration(1+rng.IntN(500)) * time.Hour).Truncate(time.Second)
+			if which != "root" {
+				s.Cert("signer2").NotBefore = later
+			}
+			if which != "signer" {
+				s.Cert("root2").NotBefore = later
+			}
+			r.SignKey, r.HdrRoles = 7, []string{"signer2", "root2"}
+		})
+	}
+	// a genuine signer that is not yet valid (its window starts after the verification instant): not accepted either
+	add("signer:genuine-not-yet-valid", -1, func(rng *rand.Rand, s *world.Spec, q bool) {
+		r, _ := respOf(s, q)
+		c := *s.Cert("signer")
+		c.Role, c.Serial, c.NotBefore = "signerLate", big.NewInt(2900), s.Now[1].Add(200*time.Hour).Truncate(time.Second)
+		if q {
+			c.NotBefore = s.Now[2].Add(200 * time.Hour).Truncate(time.Second)
+		}
+		s.Certs = append(s.Certs, &c)
+		r.HdrRoles = []string{"signerLate", "root"}
+	})
 	add("pki:look-alike-signer-under-genuine-root", -1, func(rng *rand.Rand, s *world.Spec, q bool) {
 		r, _ := respOf(s, q)
 		addCert(s, &world.CertSpec{Role: "root2", CN: "Intel SGX Root CA", IsCA: true, Key: 6, SignKey: 6})
